@@ -9,6 +9,10 @@ SUPPORT = '''
 #[derive(Debug, PartialEq, Default, Clone)]
 pub struct PErr(pub String);
 pub fn perr(s: &str) -> PErr { PErr(s.to_string()) }
+#[derive(Debug, PartialEq, Clone)]
+pub struct PErrG<T>(pub String, pub core::marker::PhantomData<T>);
+pub fn perr_g<T>(s: &str) -> PErrG<T> { PErrG(s.to_string(), core::marker::PhantomData) }
+pub mod errs { pub use super::{PErr, perr}; }
 pub fn mk() -> u8 { 7 }
 pub fn f() -> String { String::from("f") }
 '''
